@@ -139,6 +139,48 @@ def _pre_coercion_table(repo, root):
     return {"generated": "/var/tmp/ilverif/gen/coercion_table.rs", "from": "src/value/arrow_convert.rs: build_column_array, extract_value_from_array", "table": table}
 
 
+# ---------------------------------------------------------------------------------------------------------------
+# BOUNDED-ONLY properties: the functions the property is anchored in were measured out of both verifiers' reach
+# (DESIGN.md §4.3); per the brief's fallback a bounded check of those functions with a stated bound stands in.
+# Nothing here is proved: level "exploration", obligations counted under bounded_* only.
+PROPS["C34"] = {
+    "engine": "bounded-standin",
+    "standin": ["standin_stratification"],
+    "verus": [],
+    "kani": [],
+    "level": "exploration",
+    "level_text": "BOUNDED STAND-IN ONLY - nothing is proved for this property. The real validate_rules_stratification (Tarjan SCCs over HashMap<String, HashSet<String>>: out of CBMC's reach, outside Verus' subset) is run on every rule set over 3 predicates in which each ordered (head, body predicate) pair has no / a positive / a negated / both dependencies (4^9 = 262144 sets; thorough: + 200000 pseudo-random sets over 5 predicates) and its verdict compared with the property's own criterion (some negated dependency lies on a dependency cycle); and Handler::query_program is driven with 12 small rule sets (6 with recursion through negation, 6 stratified) under every split of their clauses between persistent and session rules: an unstratified set must be refused (at registration or at the query), a stratified one answered.",
+    "level_note": "bounded: 3 predicates exhaustively (5 sampled in thorough), unary rules with one dependency per clause; 12 rule sets x 2^clauses splits at the handler. Not covered: materialized persistent rules (left out of the engine's rule prefix), rules arriving through the session manager's other entry points, larger predicate vocabularies",
+    "technique": "bounded stand-in tests on the real code (cargo test in a scratch copy of the working tree, module injected insert-only); the contract is the property's iff evaluated on enumerated inputs; labelled bounded, never counted as proved; no deductive obligation exists for this property",
+    "aux_failure": "violation",
+    "functions_under_contract": [],
+    "assumptions": [
+        "nothing is proved; the stated bound is the whole coverage",
+        "the oracle (Floyd-Warshall reachability on <= 5 nodes: a negated dependency h -/-> b with b reaching h) is the property's definition of recursion through negation",
+    ],
+    "trusted_base": ["rustc/cargo test on the scratch copy", "witness/standin_stratification.rs (oracle)"],
+    "explanation": "stratification check at the function and at the request entry point",
+}
+
+PROPS["C30"] = {
+    "engine": "bounded-standin",
+    "standin": ["standin_parse_all_first"],
+    "verus": [],
+    "kani": [],
+    "level": "exploration",
+    "level_text": "BOUNDED STAND-IN ONLY - nothing is proved for this property. The parse-all-first loop is inlined in the async Handler::query_program and interleaved with storage calls (outside both verifiers). The real handler is driven with every program of 1..=3 state-changing statements (every sequence of length <= 2 over a pool of 9: inserts, bulk insert, deletes, conditional delete, rule registration, rule drop, schema declaration; every 6th of length 3; thorough: length 4) with a malformed statement (as judged by statement::parse_statement itself) inserted at every position: the request must be refused and base tuples, persistent rules and schemas must be exactly what they were; and a third of the well-formed programs are compared with statement-by-statement submission in program order.",
+    "level_note": "bounded: programs of <= 3 (thorough 4) statements from a pool of 9 on one fixed starting content; state observed = base tuples + persistent rules + schema names; meta commands, session facts, updates and multi-line statements not exercised",
+    "technique": "bounded stand-in tests on the real code (cargo test in a scratch copy of the working tree, module injected insert-only); the contract (rejected and state unchanged / effects in program order) is evaluated on enumerated programs; labelled bounded, never counted as proved; no deductive obligation exists for this property",
+    "aux_failure": "violation",
+    "functions_under_contract": [],
+    "assumptions": [
+        "nothing is proved; the stated bound is the whole coverage",
+        "a statement is malformed iff statement::parse_statement rejects it on its own line (the property's 'fails to parse')",
+    ],
+    "trusted_base": ["rustc/cargo test on the scratch copy", "witness/standin_parse_all_first.rs (oracle)"],
+    "explanation": "all-or-nothing on syntax errors at the request entry point",
+}
+
 PRE_HOOKS = {"coercion_table": _pre_coercion_table}
 
 PROPS["C12"] = {
